@@ -18,6 +18,14 @@ def run_one(job):
     return judge_bytes(data, name, kind)
 
 
+def _sig(stage, e, x):
+    """signature of a failing explain()/offending_offset()/hint: the interpreter's int->str digit limit (Python
+    3.11+) is one cause whatever the conformance error, every other failure is identified by error type and site"""
+    if isinstance(x, ValueError) and "integer string conversion" in str(x):
+        return "%s:IntMaxStrDigits" % stage
+    return "%s:%s:%s" % (stage, type(e).__name__, common.exc_signature(x))
+
+
 def judge_bytes(data, name, kind):
     r = vc.guarded_validate(data)
     ev = {"ev": "validate", "outcome": r["outcome"], "exc": r["exc"] or "", "explain": "na", "offset": "na", "hint": "na", "base": name, "kind": kind, "len": len(data)}
@@ -40,7 +48,7 @@ def judge_bytes(data, name, kind):
         except Exception as x:  # noqa
             ev["explain"] = "fail"
             detail = "explain(): %s" % common.exc_signature(x)
-            ev["sig"] = "explain:" + type(e).__name__ + ":" + common.exc_signature(x)
+            ev["sig"] = _sig("explain", e, x)
         try:
             off = e.offending_offset()
             if off is None:
@@ -50,14 +58,14 @@ def judge_bytes(data, name, kind):
         except Exception as x:  # noqa
             ev["offset"] = "fail"
             detail = "offending_offset(): %s" % common.exc_signature(x)
-            ev["sig"] = "offset:" + type(e).__name__ + ":" + common.exc_signature(x)
+            ev["sig"] = _sig("offset", e, x)
         try:
             dedent(e.bitstream_viewer_hint()).strip().format(cmd="vc2-bitstream-viewer", file="f.vc2", offset=off)
             ev["hint"] = "ok"
         except Exception as x:  # noqa
             ev["hint"] = "fail"
             detail = "bitstream_viewer_hint(): %s" % common.exc_signature(x)
-            ev["sig"] = "hint:" + type(e).__name__ + ":" + common.exc_signature(x)
+            ev["sig"] = _sig("hint", e, x)
     return ev, detail
 
 
